@@ -11,6 +11,16 @@ LatSpace ==
      md \in {N0, << <<0, 1>> >>}, rd \in {N0, << <<1, 0>> >>}, jm \in {N0, << <<0, 1>> >>},
      ju \in {N0, << << <<0>>, "valley">> >>, << << <<0, 1>>, "peak">> >>},
      b \in {<<FALSE, 0, FALSE, 1>>, <<TRUE, 0, TRUE, 1>>, <<TRUE, 1, TRUE, 0>>, <<TRUE, 1, TRUE, 1>>, <<TRUE, 0, FALSE, 1>>}}
+\* rank 3: lists of two trusts in either order - chains (a feature conditional in one trust and main in another),
+\* shared main / shared conditional features, an Edgeworth trust next to a trapezoid trust
+T(a, b, d) == <<a, b, d>>
+LatSpace3 ==
+  {[kind |-> "lattice", sizes |-> <<2, 2, 2>>, mono |-> m, uni |-> <<0, 0, 0>>, edge |-> e, trap |-> t, mdom |-> N0, rdom |-> N0,
+    jmono |-> N0, juni |-> N0, hasMin |-> FALSE, omin |-> 0, hasMax |-> FALSE, omax |-> 1] :
+     m \in {<<1, 1, 0>>, <<1, 1, 1>>},
+     e \in {N0, <<T(0, 1, 1), T(1, 2, 1)>>, <<T(1, 2, 1), T(0, 1, 1)>>, <<T(0, 1, 1), T(0, 2, 1)>>, <<T(0, 2, 1), T(1, 2, -1)>>,
+            <<T(0, 1, 1)>>},
+     t \in {N0, <<T(1, 2, -1)>>, <<T(0, 1, 1)>>, <<T(1, 2, 1), T(0, 1, -1)>>, <<T(0, 1, -1), T(1, 2, 1)>>}}
 PwlSpace ==
   {[kind |-> "pwl", kp |-> k, mono |-> m, conv |-> cv, cyclic |-> cy, hasMin |-> b[1], omin |-> b[2], hasMax |-> b[3], omax |-> b[4],
     clampMin |-> cm, clampMax |-> cx] :
@@ -30,7 +40,7 @@ KflSpace ==
   {[kind |-> "kfl", L |-> l, dims |-> 2, mono |-> m, hasMin |-> b[1], omin |-> b[2], hasMax |-> b[3], omax |-> b[4]] :
      l \in {1, 2, 3}, m \in {<<0, 0>>, <<1, 0>>, <<1, 1>>},
      b \in {<<FALSE, 0, FALSE, 1>>, <<TRUE, 0, TRUE, 1>>, <<TRUE, 1, TRUE, 0>>, <<TRUE, 1, TRUE, 1>>, <<TRUE, 0, FALSE, 1>>, <<FALSE, 0, TRUE, 1>>}}
-All == LatSpace \cup PwlSpace \cup LinSpace \cup CatSpace \cup KflSpace
+All == LatSpace \cup LatSpace3 \cup PwlSpace \cup LinSpace \cup CatSpace \cup KflSpace
 Init == c \in All
 Next == UNCHANGED c
 InvConsistent == Consistent(c)
